@@ -1,13 +1,13 @@
 package rules
 
 import (
-	"golang.org/x/tools/go/types/typeutil"
-	"sort"
 	"fmt"
 	"go/ast"
 	"go/constant"
 	"go/token"
 	"go/types"
+	"golang.org/x/tools/go/types/typeutil"
+	"sort"
 	"strings"
 
 	"cachelint/pw"
@@ -397,6 +397,35 @@ func (c *Ctx) c14Import() {
 					r.Bad("R14.2", "HTTPTransfer.Import", "import-stops-early", c.Pos(ev.Pos), "Import breaks out of the loop over its caches", shortTrace(p))
 				}
 			}
+		}
+	}
+	// a path that never gets to the loop over the registered caches imports nothing: it needs a reason — the URL does not parse, or
+	// there is no registered cache (a guard like GobTypesHash() == 0 refuses the legitimate "nothing registered on either side")
+	zero14 := e.IntConst(0)
+	for _, p := range paths {
+		reached, reason := false, false
+		for _, ev := range p.Events {
+			if ev.Kind == pw.EvMapIter {
+				reached = true
+			}
+			if ev.Kind == pw.EvCall && ev.Role == "Std:url.Parse" && len(ev.Results) == 2 && nilTri(p, ev.Results[1]) == triFalse {
+				reason = true
+			}
+		}
+		if reached || reason {
+			continue
+		}
+		for pair, rel := range p.RelFacts() {
+			a, b := e.Vals[pair[0]], e.Vals[pair[1]]
+			if a == nil || b == nil || rel != pw.REq {
+				continue
+			}
+			if a.Kind == pw.KLen && b == zero14 || b.Kind == pw.KLen && a == zero14 {
+				reason = true
+			}
+		}
+		if !reason && !c.featurePath(p) {
+			r.Bad("R14.2", "HTTPTransfer.Import", "import-refused-without-reason", c.Pos(p.RetPos), "Import returns before the loop over its registered caches on a path where the URL parsed: nothing is requested although hashes may be equal and names known", shortTrace(p))
 		}
 	}
 	if nRestore == 0 || nSkip == 0 {
